@@ -136,29 +136,36 @@ inline void ApplyCommon(EncT &e, const EncOpts &o) {
   e.SetTrackEncodedProperties(o.track);
 }
 
+inline void ConfigureExpert(draco::ExpertEncoder *e, const Geo &g, const EncOpts &o, int *pred_rejected = nullptr) {
+  ApplyCommon(*e, o);
+  if (o.builtin >= 0) e->SetUseBuiltInAttributeCompression(o.builtin != 0);
+  for (size_t a = 0; a < g.atts.size(); ++a) {
+    if (a < o.explicit_q.size() && o.explicit_q[a].bits > 0) e->SetAttributeExplicitQuantization(static_cast<int>(a), o.explicit_q[a].bits, static_cast<int>(o.explicit_q[a].origin.size()), o.explicit_q[a].origin.data(), o.explicit_q[a].range);
+    else if (o.qbits[a] > 0) e->SetAttributeQuantization(static_cast<int>(a), o.qbits[a]);
+    if (o.pred[a] != -100) { if (!e->SetAttributePredictionScheme(static_cast<int>(a), o.pred[a]).ok() && pred_rejected) ++*pred_rejected; }
+  }
+}
+inline void ConfigureBasic(draco::Encoder *e, const Geo &g, const EncOpts &o, int *pred_rejected = nullptr) {
+  ApplyCommon(*e, o);
+  for (size_t a = 0; a < g.atts.size(); ++a) {
+    if (a < o.explicit_q.size() && o.explicit_q[a].bits > 0) e->SetAttributeExplicitQuantization(g.atts[a].type, o.explicit_q[a].bits, static_cast<int>(o.explicit_q[a].origin.size()), o.explicit_q[a].origin.data(), o.explicit_q[a].range);
+    else if (o.qbits[a] > 0) e->SetAttributeQuantization(g.atts[a].type, o.qbits[a]);
+    if (o.pred[a] != -100) { if (!e->SetAttributePredictionScheme(g.atts[a].type, o.pred[a]).ok() && pred_rejected) ++*pred_rejected; }
+  }
+}
+
 inline EncResult Encode(const Geo &g, const draco::PointCloud &pc, const draco::Mesh *mesh, const EncOpts &o) {
   EncResult res;
   draco::EncoderBuffer eb;
   if (o.expert) {
     std::unique_ptr<draco::ExpertEncoder> e(mesh ? new draco::ExpertEncoder(*mesh) : new draco::ExpertEncoder(pc));
-    ApplyCommon(*e, o);
-    if (o.builtin >= 0) e->SetUseBuiltInAttributeCompression(o.builtin != 0);
-    for (size_t a = 0; a < g.atts.size(); ++a) {
-      if (a < o.explicit_q.size() && o.explicit_q[a].bits > 0) e->SetAttributeExplicitQuantization(static_cast<int>(a), o.explicit_q[a].bits, static_cast<int>(o.explicit_q[a].origin.size()), o.explicit_q[a].origin.data(), o.explicit_q[a].range);
-      else if (o.qbits[a] > 0) e->SetAttributeQuantization(static_cast<int>(a), o.qbits[a]);
-      if (o.pred[a] != -100) { if (!e->SetAttributePredictionScheme(static_cast<int>(a), o.pred[a]).ok()) ++res.pred_rejected; }
-    }
+    ConfigureExpert(e.get(), g, o, &res.pred_rejected);
     res.status = e->EncodeToBuffer(&eb);
     res.num_points = e->num_encoded_points();
     res.num_faces = e->num_encoded_faces();
   } else {
     draco::Encoder e;
-    ApplyCommon(e, o);
-    for (size_t a = 0; a < g.atts.size(); ++a) {
-      if (a < o.explicit_q.size() && o.explicit_q[a].bits > 0) e.SetAttributeExplicitQuantization(g.atts[a].type, o.explicit_q[a].bits, static_cast<int>(o.explicit_q[a].origin.size()), o.explicit_q[a].origin.data(), o.explicit_q[a].range);
-      else if (o.qbits[a] > 0) e.SetAttributeQuantization(g.atts[a].type, o.qbits[a]);
-      if (o.pred[a] != -100) { if (!e.SetAttributePredictionScheme(g.atts[a].type, o.pred[a]).ok()) ++res.pred_rejected; }
-    }
+    ConfigureBasic(&e, g, o, &res.pred_rejected);
     res.status = mesh ? e.EncodeMeshToBuffer(*mesh, &eb) : e.EncodePointCloudToBuffer(pc, &eb);
     res.num_points = e.num_encoded_points();
     res.num_faces = e.num_encoded_faces();
